@@ -108,7 +108,11 @@ class VLoop(asyncio.SelectorEventLoop):
             except BaseException as e:  # noqa: BLE001
                 fut.set_exception(e)
 
-        self.call_soon(self.call_soon, self.call_soon, job)
+        delay = getattr(self, "executor_delay", 0.0)  # a slow executor job (e.g. a busy disk), in virtual seconds
+        if delay:
+            self.call_later(delay, job)
+        else:
+            self.call_soon(self.call_soon, self.call_soon, job)
         return fut
 
     async def getaddrinfo(self, host, port, **kw):  # never resolve for real
